@@ -10,5 +10,6 @@ CONSTANTS
   Questions <- Q0
   AllowEnd = FALSE
   MaxRequery = 0
+  FixCommitState = TRUE
 INVARIANTS TypeOK InOrderNoDup AllDelivered SlotsSuffice SlotBound SMPSound
 CHECK_DEADLOCK FALSE
